@@ -10,8 +10,9 @@ RULE = ("bounded-exhaustive op sequences (depth<=3 quick / 4 thorough, 17-op alp
         "add/replace/set + remove) on reference-encoded tables of N in {1,2,3} (empty or pre-filled with an opaque "
         "block) + removal-position matrix for N<=6 + random 30-80-op histories over all nine types on Tdf.new files "
         "and foreign compact files of N in {1,2,3,4,6,14} (opaque blocks, scrambled don't-care bytes; thorough: a copy "
-        "of the BTS capture), split over several write contexts; a case is a history; distinct_nontrivial counts "
-        "distinct abstract states (N, live types in order, #free) reached plus histories of >= 3 operations")
+        "of the BTS capture), split over several write contexts; a case is a history; non-trivial = a random history "
+        "of >= 3 operations or an enumerated sequence of depth >= 2 (distinct abstract states (N, live types in order, #free) and "
+        "transitions actually visited are reported separately under monitor_observations)")
 ASSUMPTIONS = ["initial files are compact (blocks back to back in table order, free slots last at end of data)",
                "adding an UnusedBlock is not an operation of the property's domain",
                "expected payload of a library-written block is its encoding captured at call time"]
